@@ -1,6 +1,8 @@
 import UtilModel.Core.Driver
 import UtilModel.RefCount.Model
 import UtilModel.RefCount.Monitors
+import UtilModel.RefCount.Consumers
+import UtilModel.RefCount.ConsMonitors
 /-! Development driver for this component only:
 `lake env lean --run UtilModel/RefCount/TestDriver.lean refcount < hist` -/
 open UtilModel
@@ -8,5 +10,8 @@ open UtilModel
 def main (args : List String) : IO UInt32 :=
   driverMain [
     mkEntry "refcount" RefCount.model RefCount.Obs.parse
-      [MonEntry.ofMonitor "C08" RefCount.monC08, MonEntry.ofMonitor "C09" RefCount.monC09]
+      [MonEntry.ofMonitor "C08" RefCount.monC08, MonEntry.ofMonitor "C09" RefCount.monC09],
+    mkEntry "refcount-consumers" RefCount.Cons.cmodel RefCount.Cons.CObs.parse
+      [MonEntry.ofMonitor "C10" RefCount.Cons.monC10, MonEntry.ofMonitor "C08c" RefCount.Cons.monC08c,
+       MonEntry.ofMonitor "C09c" RefCount.Cons.monC09c] (cap := 4000)
   ] args
